@@ -73,9 +73,13 @@ func buildOverlay(repo, verif string, spec *CheckSpec, patches []SourcePatch, na
 	}
 	for _, p := range patches {
 		path := filepath.Join(repo, p.File)
-		src, err := os.ReadFile(path)
-		if err != nil {
-			return nil, err
+		src, ok := ov[path] // several patches may address one file
+		if !ok {
+			var err error
+			src, err = os.ReadFile(path)
+			if err != nil {
+				return nil, err
+			}
 		}
 		if strings.Count(string(src), p.Old) != 1 {
 			return nil, fmt.Errorf("patch for %s does not apply (old text found %d times)", p.File, strings.Count(string(src), p.Old))
